@@ -38,15 +38,22 @@ fn type_all(ctx: &mut Ctx, evs: &[Ev], report: &Report) -> Option<Rend> {
 /// The ways an emoticon is typed: bare; after the word `k` ended by finish / commit / ctrl-backspace /
 /// backspace; and with a key that produces nothing (keypad Enter; in fixed mode also a keypad digit
 /// while the number-pad option is off) pressed just before it or after its first character.
-fn emoticon_histories(e: &str, phonetic: bool) -> Vec<Vec<Ev>> {
+fn emoticon_histories(e: &str, phonetic: bool, numpad_on: bool) -> Vec<Vec<Ev>> {
     let typed: Vec<Ev> = e.chars().map(Ev::ch).collect();
     let kp = |n: &str| Ev::key(crate::keys::by_name(n).unwrap().code);
     let mut v: Vec<Vec<Ev>> = vec![];
     for pre in [vec![], vec![Ev::ch('k'), Ev::Finish], vec![Ev::ch('k'), Ev::Commit(0)], vec![Ev::ch('k'), Ev::CtrlBs], vec![Ev::ch('k'), Ev::Bs]] {
         v.push(pre.into_iter().chain(typed.iter().cloned()).collect());
     }
+    // the same characters from the number pad's keys (phonetic: always; fixed: while the number-pad option is on)
+    if phonetic || numpad_on {
+        let kp_typed: Vec<Ev> = e.chars().map(|c| crate::keys::KEYS.iter().find(|k| k.numpad && k.ch == Some(c)).map(|k| Ev::key(k.code)).unwrap_or_else(|| Ev::ch(c))).collect();
+        if kp_typed != typed {
+            v.push(kp_typed);
+        }
+    }
     let mut noops = vec![kp("VC_KP_ENTER")];
-    if !phonetic {
+    if !phonetic && !numpad_on {
         noops.push(kp("VC_KP_5"));
     }
     for n in noops {
@@ -94,10 +101,13 @@ pub fn run(report: &Report, thorough: bool) -> Evidence {
                 let xdg = scratch_xdg(&format!("c18pe-{}", w));
                 ph_cfgs
                     .iter()
-                    .map(|&(english, smart)| {
+                    .enumerate()
+                    .map(|(ci, &(english, smart))| {
                         let mut o = Opts::phonetic(&real_db(), &xdg);
                         o.english = english;
                         o.smart = smart;
+                        // the last configuration is reached through update_engine (a live, re-configured context)
+                        o.via_update = ci + 1 == ph_cfgs.len();
                         let mut c = Ctx::new(&o).expect("ctx");
                         c.with_pre = false;
                         c
@@ -111,7 +121,7 @@ pub fn run(report: &Report, thorough: bool) -> Evidence {
                     return;
                 }
                 // bare, and after an earlier word ended in each of the four ways (same context)
-                for evs in emoticon_histories(e, true) {
+                for evs in emoticon_histories(e, true, false) {
                 for ctx in ctxs.iter_mut() {
                     let Some(r) = type_all(ctx, &evs, report) else { continue };
                     checked.fetch_add(1, Ordering::Relaxed);
@@ -144,12 +154,14 @@ pub fn run(report: &Report, thorough: bool) -> Evidence {
                 let xdg = scratch_xdg(&format!("c18pn-{}", w));
                 ph_cfgs
                     .iter()
-                    .map(|&(english, smart)| {
+                    .enumerate()
+                    .map(|(ci, &(english, smart))| {
                         let mk = |ansi: bool| {
                             let mut o = Opts::phonetic(&real_db(), &xdg);
                             o.english = english;
                             o.smart = smart;
                             o.ansi = ansi;
+                            o.via_update = ci + 1 == ph_cfgs.len();
                             let mut c = Ctx::new(&o).expect("ctx");
                             c.with_pre = false;
                             c
@@ -237,7 +249,8 @@ pub fn run(report: &Report, thorough: bool) -> Evidence {
         let mk_ctxs = |xdg: &str| {
             fx_cfgs
                 .iter()
-                .map(|&(kar, smart, english)| {
+                .enumerate()
+                .map(|(ci, &(kar, smart, english))| {
                     let mk = |ansi: bool| {
                         let mut o = Opts::fixed(&probhat(), &real_db(), xdg);
                         o.fsugg = true;
@@ -245,6 +258,9 @@ pub fn run(report: &Report, thorough: bool) -> Evidence {
                         o.smart = smart;
                         o.english = english;
                         o.ansi = ansi;
+                        o.via_update = ci + 1 == fx_cfgs.len();
+                        // ... and has the number-pad option on (emoticons typed with the number pad's keys)
+                        o.numpad = ci + 1 == fx_cfgs.len();
                         let mut c = Ctx::new(&o).expect("ctx");
                         c.with_pre = false;
                         c
@@ -264,8 +280,8 @@ pub fn run(report: &Report, thorough: bool) -> Evidence {
                     return;
                 }
                 // (every main-zone key of Probhat has a value, so the raw key text is the emoticon)
-                for evs in emoticon_histories(e, false) {
                 for (ctx, _) in ctxs.iter_mut() {
+                for evs in emoticon_histories(e, false, ctx.opts.numpad) {
                     let Some(r) = type_all(ctx, &evs, report) else { continue };
                     checked.fetch_add(1, Ordering::Relaxed);
                     nontrivial.fetch_add(1, Ordering::Relaxed);
